@@ -59,12 +59,34 @@ def last_begin(stderr):
     return open_[-1] if open_ else None
 
 
+CPU_LIMIT_ALONE = 60  # seconds of CPU time (a load-independent clock) granted to one scenario run alone
+
+
+def confirm_nontermination(cmd_alone, env=None):
+    """Re-run one scenario alone under a CPU-time limit. CPU time, not wall-clock time, decides: a scenario of
+    these families needs milliseconds of CPU; one that burns CPU_LIMIT_ALONE seconds alone does not terminate
+    within 1000x its normal budget. Returns 'nonterminating' | 'terminates' | 'unknown'."""
+    import resource, signal
+
+    def limit():
+        resource.setrlimit(resource.RLIMIT_CPU, (CPU_LIMIT_ALONE, CPU_LIMIT_ALONE + 5))
+
+    try:
+        p = subprocess.run(cmd_alone, env=env or ENV, stdout=subprocess.PIPE, stderr=subprocess.PIPE, timeout=CPU_LIMIT_ALONE * 40, preexec_fn=limit)
+    except subprocess.TimeoutExpired:
+        return "unknown"
+    if p.returncode in (-signal.SIGXCPU, -signal.SIGKILL):
+        return "nonterminating"
+    return "terminates"
+
+
 def run_driver(cmd, env=None, timeout=1800):
     """returns dict(summary or None, rc, crashed_in, stderr_tail)"""
     try:
         rc, out, err = sh(cmd, env=env, timeout=timeout)
-    except subprocess.TimeoutExpired:
-        return {"summary": None, "rc": None, "timeout": True, "crashed_in": None, "stderr": ""}
+    except subprocess.TimeoutExpired as e:
+        partial = (e.stderr or b"").decode("utf-8", "replace")
+        return {"summary": None, "rc": None, "timeout": True, "crashed_in": last_begin(partial), "stderr": partial[-2000:]}
     summary = None
     for line in out.splitlines():
         line = line.strip()
@@ -95,10 +117,11 @@ class Result:
 
 def audit_phase(res, binary, family, scenarios, seed, max_payload):
     futures = []
+    hung_reported = set()
     with cf.ThreadPoolExecutor(JOBS) as ex:
         for shard in range(JOBS):
             cmd = [binary, "--seed", str(seed), "--scenarios", str(scenarios), "--family", family, "--shard", f"{shard}/{JOBS}", "--max-payload", str(max_payload)]
-            futures.append((shard, cmd, ex.submit(run_driver, cmd)))
+            futures.append((shard, cmd, ex.submit(run_driver, cmd, None, 420 if scenarios <= 5000 else 3600)))
     total = dict(processes=0, scenarios=0, ops=0, layout_mismatches=0, frees_of_unknown_pointers=0, leaks=0, value_violations=0, crashes=0, allocations_observed=0)
     for shard, cmd, fut in futures:
         r = fut.result()
@@ -106,7 +129,21 @@ def audit_phase(res, binary, family, scenarios, seed, max_payload):
         s = r["summary"]
         if s is None:
             if r["timeout"]:
-                res.inconclusive.append(f"audit shard {shard} ({family}) hit the wall-clock watchdog")
+                where = r["crashed_in"]
+                verdict = "unknown"
+                if where:
+                    alone = [binary, "--seed", str(seed), "--scenarios", str(scenarios), "--family", family, "--only", where[0], "--max-payload", str(max_payload)]
+                    verdict = confirm_nontermination(alone)
+                if verdict == "nonterminating" and family in hung_reported:
+                    continue
+                if verdict == "nonterminating":
+                    hung_reported.add(family)
+                    res.violation(
+                        f"scenario {where} of family {family} does not terminate: run alone it was still running after {CPU_LIMIT_ALONE} s of CPU time (scenarios of this family need milliseconds)",
+                        dict(engine="audit", seed=seed, family=family, scenarios=scenarios, only=int(where[0]), max_payload=max_payload),
+                    )
+                else:
+                    res.inconclusive.append(f"audit shard {shard} ({family}) hit the wall-clock watchdog in scenario {where}; alone: {verdict} (no verdict)")
                 continue
             total["crashes"] += 1
             where = r["crashed_in"]
@@ -145,6 +182,9 @@ def audit_phase(res, binary, family, scenarios, seed, max_payload):
 
 
 def miri_phase(res, family, shards, scenarios_per_shard, seed, tree_borrows, selectors):
+    if any("does not terminate" in m and f"family {family}" in m for m, _ in res.violations):
+        res.engine("miri", family=family, processes=0, scenarios=0, reports=0, note="skipped: a scenario of this family does not terminate (reported by the audit phase)")
+        return
     flags = "-Zmiri-disable-isolation" + (" -Zmiri-tree-borrows" if tree_borrows else "") + (" -Zmiri-ignore-leaks" if family == "immortal" else "")
     env = dict(ENV, MIRIFLAGS=flags)
     target = os.path.join(VERIF, "target-miri")
